@@ -420,6 +420,17 @@ func runInner(c Case) (res vt.Result, fail *vt.Fail) {
 		return res, vt.Failf("C12/copy-to-intermediate-failed", "src -> %s: %v", c.Mid, err)
 	}
 	dstDir := filepath.Join(root, "dst")
+	if len(c.Items)%2 == 0 {
+		// the destination's working directory is reached through a symbolic link
+		// (a linked workspace; temp directories on some systems)
+		if err := os.MkdirAll(filepath.Join(root, "dst-real"), 0o755); err != nil {
+			return res, vt.Failf("harness/dst", "%v", err)
+		}
+		if err := os.Symlink("dst-real", dstDir); err != nil {
+			return res, vt.Failf("harness/dst", "%v", err)
+		}
+		res.Classes = append(res.Classes, "destination-directory-behind-a-symlink")
+	}
 	if c.StaleDst {
 		for i, it := range c.Items {
 			if it.IsDir && !c.SkipUnpack {
